@@ -503,6 +503,43 @@ def case_init_big(tag, nlines=6, nterms=24, pad=2):
     return [m.cmd(), "load o1 %s/m" % d, exp]
 
 
+def case_after_fatal_in_include(tag, depth=2, rng=None):
+    """the lexer gives up INSIDE a nested include (comment that is never closed: a fatal lexer error, the include stack is
+    not unwound by the parser), then a good program is compiled in the same driver and fails at run time"""
+    d = "/c18/%s" % tag
+    b = Src("%s/bad.c" % d)
+    b.text("int x_;\nvoid set_oid(string s) {}\nint h0(int k) {\n  x_ = k;\n  return x_;\n}\n")
+    files = [b] + [Src("%s/f%d.h" % (d, i)) for i in range(1, depth + 1)]
+    for i, src in enumerate(files):
+        if i:
+            src.text("// level %d\n" % i)
+        src.pad("n", rng.range(0, 9) if rng else 2)
+        if i < depth:
+            src.text('#include "f%d.h"\n' % (i + 1))
+            src.text("int after%d(int k) { return k; }\n" % i)
+    last = files[depth]
+    last.text("int inner(int k) { return k; }\n")
+    cl = last.line
+    last.text("/* this comment is never closed\nint lost(int k) { return k; }\n")
+    m = Src("%s/m.c" % d)
+    m.text("int x_;\nvoid set_oid(string s) {}\n")
+    m.pad("n", rng.range(0, 20) if rng else 4)
+    m.text('#include "g.h"\n')
+    g = Src("%s/g.h" % d)
+    g.text("// g\nint gf(int k) {\n")
+    gl = g.line
+    g.text("  x_ = 10 / k;\n  return x_;\n}\n")
+    ml = m.line
+    m.text("int go(int k) { return gf(k) + 1; }\n")
+    p, o = "%s/m.c" % d.lstrip("/"), "%s/m" % d
+    fr = [("go", p, o, p, ml, ml), ("gf", p, o, g.name, gl, gl)]
+    exp = "expect kind=plain file=%s lines=%d-%d program=%s object=%s trace=%s" % (
+        g.name, gl, gl, p, o, "|".join("%s@%s@%s@%s@%d-%d" % f for f in fr))
+    return [f.cmd() for f in files] + [m.cmd(), g.cmd(), "load o4 %s/bad" % d,
+            "expectce file=%s line=-1 text=End_of_file_in_a_comment" % last.name,
+            "load o1 %s/m" % d, "apply o1 go", exp, "dump o1"]
+
+
 def case_after_failed_compile(tag, rng=None, nfun=2):
     """a program that does not compile (its error is behind complete functions, so code and line runs had been generated)
     followed, in the same driver, by a good program with a runtime error: nothing of the abandoned compilation may leak"""
@@ -1397,7 +1434,8 @@ class C18(Prop):
                 out.append(E.Case("g%d" % i, (["mode ginc"] if rng.chance(1, 3) else []) + lines, {"fail": "compile-error", "origin": "generated"}))
                 continue
             if rng.chance(1, 40):
-                out.append(E.Case("g%d" % i, case_after_failed_compile(tag, rng, rng.range(1, 4)), {"fail": "div", "origin": "generated"}))
+                out.append(E.Case("g%d" % i, case_after_failed_compile(tag, rng, rng.range(1, 4)) if rng.chance(1, 2) else
+                                  case_after_fatal_in_include(tag, rng.range(1, 4), rng), {"fail": "div", "origin": "generated"}))
                 continue
             if rng.chance(1, 40):
                 out.append(E.Case("g%d" % i, case_init_big(tag, rng.range(2, 10), rng.range(8, 45), rng.range(0, 100)), {"fail": "init", "origin": "generated"}))
@@ -1537,6 +1575,8 @@ class C18(Prop):
         mk("init-big-block", case_init_big("b_init8"), fail="init")
         mk("init-big-block-far", case_init_big("b_init9", nlines=12, nterms=40, pad=300), fail="init")
         mk("after-failed-compile", case_after_failed_compile("b_afc"), fail="div")
+        mk("after-fatal-in-include", case_after_fatal_in_include("b_afi"), fail="div")
+        mk("after-fatal-in-include-3", case_after_fatal_in_include("b_afi3", depth=3), fail="div")
         mk("after-failed-compile-3", case_after_failed_compile("b_afc3", nfun=5), fail="div")
         mk("init-same-line-twice", case_init("b_init7", pad=2, funcs=1, sameline=2), fail="init")
         mk("init-after-other-compile", case_init_pair("b_init3", pad=3), fail="init")
